@@ -17,6 +17,11 @@ def run(tier):
     rep.coverage["deviation_counterexamples"] = {"NoShutdownCheck": x.violated}
     trace = os.path.join(wd, "trace.ndjson")
     vlib.run_harness(["c20", "drive", "out=" + trace, "segments=%d" % (3000 if big else 300)], timeout=3000)
+    # real threads, real time (a tenth of the timeouts): true interleavings of the tokio locks; few runs in quick, many in thorough
+    rtrace = os.path.join(wd, "trace_real.ndjson")
+    vlib.run_harness(["c20", "drive", "mode=real", "out=" + rtrace, "segments=%d" % (150 if big else 8), "max_nodes=8"], timeout=3000)
+    with open(trace, "a") as f, open(rtrace) as g:
+        f.write(g.read())
     res, tr = vlib.validate_trace("Trace_Lifecycle", "Trace_Lifecycle.cfg", trace, os.path.join(wd, "out.json"), timeout=3000)
     if res["consumed"] != res["total"]:
         raise vlib.ToolError("trace not fully consumed")
@@ -33,6 +38,7 @@ def run(tier):
         rep.violation(v["clause"], v["site"], v["cond"], {"line": v["line"], "event": recs[v["line"] - 1]})
     rep.coverage["acceptor_mismatches_total"] = res["nviol"]
     rep.coverage["runs_with_work_in_flight_at_stop"] = stops_inflight
+    rep.coverage["real_time_multithread_runs"] = sum(1 for e in recs if e.get("mode") == "real")
     if stops_inflight == 0:
         raise vlib.ToolError("vacuous: stop never overlapped with an operation")
     if not rep.unknown_violations():
